@@ -107,14 +107,17 @@ func (fr *fanoutRun) fn(ctx context.Context, node int, req *storepb.WriteRequest
 	run := ""
 	for _, td := range req.TimeseriesTenantData {
 		for i := range td.Timeseries {
-			run = labelOf(&td.Timeseries[i], "vrun")
+			if labelOf(&td.Timeseries[i], "vrun") != fr.runID {
+				continue // not a series of the judged request (straggler, or stale data the handler carried over)
+			}
+			run = fr.runID
 			s, _ := strconv.Atoi(labelOf(&td.Timeseries[i], "vser"))
 			got = append(got, s)
 			items = append(items, st{s, td.Tenant})
 		}
 	}
 	if run != fr.runID {
-		return nil // straggler of an earlier run
+		return nil // nothing of the judged request in this write
 	}
 	fr.mu.Lock()
 	i, ok := fr.idx[[2]int{node, int(req.Replica) - 1}]
@@ -228,6 +231,9 @@ func (a *localAppender) GetRef(l labels.Labels, _ uint64) (storage.SeriesRef, la
 func (a *localAppender) Append(_ storage.SeriesRef, l labels.Labels, _ int64, _ float64) (storage.SeriesRef, error) {
 	if a.conflict {
 		return 0, storage.ErrOutOfOrderSample
+	}
+	if a.fr != nil && l.Get("vrun") != a.fr.runID {
+		return 1, nil // not a series of the judged request
 	}
 	s, _ := strconv.Atoi(l.Get("vser"))
 	a.pending = append(a.pending, s)
@@ -399,6 +405,41 @@ func (d *fanoutDriver) prime(e *env, down map[int]bool, runID string, nn int) {
 	time.Sleep(time.Millisecond) // the completion callbacks (which mark the peers) run right after the answers
 }
 
+// rejectedBefore is the history step "the previous requests on this handler were rejected while their
+// series were being distributed": the same series as the judged request (same tenant, same placement)
+// followed by one more series that cannot be placed - an invalid split-tenant label value, or a series
+// no hashring handles. Nothing of these requests may influence the judged one. Several are sent so that
+// whatever the handler keeps per request (pooled scratch maps, per P) has seen one.
+func (d *fanoutDriver) rejectedBefore(e *env, kind, baseTenant, runID string, starts, tenantIdx []int, tenants []string) {
+	fanoutBypass.Add(1)
+	defer fanoutBypass.Add(-1)
+	var tss []prompb.TimeSeries
+	for s := 1; s <= len(starts); s++ {
+		lb := map[string]string{"__name__": "verif_fanout", "vser": strconv.Itoa(s), "vstart": strconv.Itoa(starts[s-1]), "vrun": "r" + runID}
+		if tenantIdx[s-1] > 0 {
+			lb["vtenant"] = tenants[s-1]
+		}
+		tss = append(tss, series(lb, 1700000000000, float64(s)))
+	}
+	bad := map[string]string{"__name__": "verif_fanout", "vser": strconv.Itoa(len(starts) + 1), "vstart": "0", "vrun": "r" + runID}
+	if kind == "badtenant" {
+		bad["vtenant"] = "../evil"
+	} else {
+		bad["vfail"] = "1"
+	}
+	tss = append(tss, series(bad, 1700000000000, 0))
+	body := v1Body(d.t, tss)
+	hdr := map[string]string{"Content-Type": "application/x-protobuf", "Content-Encoding": "snappy", "THANOS-TENANT": baseTenant}
+	for i := 0; i < 6; i++ {
+		cl := newClient()
+		st, _, err := post(context.Background(), cl, e.url+"/api/v1/receive", body, hdr)
+		cl.CloseIdleConnections()
+		if err == nil && st >= 200 && st <= 299 {
+			d.t.Fatalf("fan-out driver: the request that should be rejected in distribution was accepted (%s)", kind)
+		}
+	}
+}
+
 // runOrder executes the case once with the given response order (1-based er indices) and retries
 // when the environment did not behave as the case demands (a back-off window that had already
 // expired, a straggler callback of an earlier run that put a healthy peer into back-off).
@@ -455,6 +496,9 @@ func (d *fanoutDriver) runOnce(c vt.Case, ers []erSpec, outs []string, order []i
 	if local >= 0 && (down[local] || undial[local]) {
 		d.t.Fatalf("fan-out driver: the local node cannot be down: %v", c)
 	}
+	if vt.Str(c["pre"]) == "badtenant" {
+		split = true // the history step needs the tenant-split label to be configured
+	}
 	e := d.env(rf, nn, vt.Str(c["mode"]), len(down) > 0, local, split)
 	dead := vt.Bool(c["dead"]) // back-off nodes are really dead: nothing listens at their address
 	eps := e.eps
@@ -498,6 +542,9 @@ func (d *fanoutDriver) runOnce(c vt.Case, ers []erSpec, outs []string, order []i
 	d.store.cur.Store(fr)
 	if len(down) > 0 {
 		d.prime(e, down, fr.runID, nn) // earlier requests fail on these nodes => back-off for this one
+	}
+	if pre := vt.Str(c["pre"]); pre == "badtenant" || pre == "noring" {
+		d.rejectedBefore(e, pre, baseTenant, fr.runID, starts, tenantIdx, fr.tenants)
 	}
 	setPeerFunc(e.peers, fr.fn)
 	// drain stale hook signals (none expected)
@@ -794,7 +841,7 @@ func randomFanoutCase(rnd *rand.Rand, outcomes []string, maxRF, norders int, loc
 		mode = "routeringestor"
 	}
 	return vt.Case{"rf": rf, "nn": nn, "starts": starts, "rep": rep, "ers": ers, "outs": outs, "orders": orders, "mode": mode, "dead": dead,
-		"local": local, "tenants": tenants}
+		"local": local, "tenants": tenants, "pre": []string{"none", "none", "badtenant", "noring"}[rnd.Intn(4)]}
 }
 
 // dialFailureCases: one series, rf 1..maxRF, every multiset over ok/conflict/unavailable/nodial with at
@@ -854,6 +901,7 @@ func fanoutGen(t *testing.T, outcomes []string, maxRF, n, norders int, locals bo
 			if vt.Int(c["rep"]) > 0 {
 				c["mode"] = "routeringestor" // RouterOnly ignores the replica header by design
 			}
+			c["pre"] = []string{"none", "none", "badtenant", "noring"}[rnd.Intn(4)] // history before the judged request
 			yield(c)
 		}
 		if locals {
